@@ -23,6 +23,7 @@ def trace(tid):
 
 ALPHABET = ([['load', t] for t in TIDS] + [['unload', t] for t in TIDS] + [['fail', 'missing', 'q1'], ['fail', 'ext', 'q2'], ['fail', 'ext', 't0']]
             + [['step', 1], ['step', -1], ['step', 3], ['reval', 1], ['reval', 3], ['reval', -1]] + [['stepid', t, 1] for t in TIDS] + [['stepid', 't0', -1], ['stepid', 'tB', 4]]
+            + [['setall', 0], ['setall', 2], ['setall', 4], ['setall', 6]]
             + [['stepids', ['t0', 'tB'], 2], ['stepids', ['tB', 't0'], 3], ['stepids', ['zz', 'tB'], 1], ['stepids', ['t0', 'zz', 'tB'], -1]])
 
 
@@ -91,6 +92,17 @@ class C12(framework.PropertyCheck):
                     else:
                         ok = False
                 plan.append((('eval', 'eorg', f'(step {op[1]})'), ('val', ('B', ok))))
+            elif k == 'setall':
+                # every loaded trace is asked to go to index i, each on its own; the result says whether all of them could
+                if not loaded:
+                    continue
+                ok = True
+                for t in loaded:
+                    if 0 <= op[1] < LENS[t]:
+                        loaded[t] = op[1]
+                    else:
+                        ok = False
+                plan.append((('eval', 'eorg', f'(set-index/all {op[1]})'), ('val', ('B', ok))))
             elif k == 'reval':
                 if not loaded:
                     continue
